@@ -11,7 +11,7 @@ CLAIMS = {
             "Decides, over all paths of the interpreted entry points: the consuming side run on the producing side's symbolic output returns exactly the message for every footer / assertion case (absent == empty), the producer computes the specification's token, parse_raw_token refuses only for stated causes, and the generic / prelude wrappers and setters forward payload, key, footer, assertion and keep builder state. The axioms about the primitives (stream cipher involution, AEAD, UTF-8) are trusted, not decided.",
             "trusted: stream ciphers are involutions under the same key and counter, AEAD decrypt inverts encrypt, serde_json/UTF-8 round trips; the models of external callees in rules/psai.py / rules/models.py; rustc MIR is faithful"),
     "C02": ("other", "4.C02", "path-sensitive abstract interpretation of the whole entry points over the MIR (rustc_private driver) with the cryptographic primitives as uninterpreted functions (canonical descriptions), compared with the specification's algorithm and composed with the sibling entry point; layer contracts of the wrappers by interpretation with the layer below summarised; structural CFG / provenance-term rules as second opinion for undecided entry points",
-            "Same as C01 for sign / verify: composition verify(sign(M)) = M on all paths, producer == specification, returned message = authenticated message, wrapper contracts; signature scheme correctness is an axiom of the models.",
+            "Same as C01 for sign / verify: composition verify(sign(M)) = M on all paths, producer == specification, returned message = authenticated message, wrapper contracts, and the v3 public key constructor admits exactly the SEC1 compressed tags (symbolic tag byte); signature scheme correctness is an axiom of the models.",
             "trusted: verify(sign(m)) holds exactly for the signer's public key and message in ring / ed25519-dalek / p384; models of external callees"),
     "C03": ("proof", "4.C03", "path-sensitive abstract interpretation of the 8 core consumers and the 16 parser wrappers (events: authentication success before any keystream / UTF-8 step) + gates of parse_raw_token + panic-site inventory; CFG dominance as second opinion",
             "Ordering proof over all interpreted paths: every accepting path of the 8 consumers carries the success event of the specification's authentication check (whole tag / signature / AEAD over the specification's PAE with the caller's key, footer, assertion) before any plaintext step; the returned content is the authenticated content; claims are examined only on the Ok value of the authenticating call; one strict base64 engine; textual gates; no panic in the core consumers. Obligations are counted and all must be discharged.",
@@ -20,13 +20,13 @@ CLAIMS = {
             "Decides that every primitive is keyed from the caller's key exactly as the specification says, that the consumer run on a token produced under another key returns no Ok on any path, and that signers are built from the whole private key by the validating constructor; that another key makes a real MAC / signature fail is the axiom behind the models (PRF / unforgeability).",
             "trusted: HKDF/BLAKE2b are PRFs, signatures unforgeable"),
     "C05": ("other", "4.C05", "path-sensitive abstract interpretation of the whole entry points over the MIR (rustc_private driver) with the cryptographic primitives as uninterpreted functions (canonical descriptions), compared with the specification's algorithm and composed with the sibling entry point; layer contracts of the wrappers by interpretation with the layer below summarised; structural CFG / provenance-term rules as second opinion for undecided entry points; must-pass-through / path-sensitive gates of parse_raw_token; abstract evaluation of format_token",
-            "Decides the footer gate (4-segment tokens only through the equal edge of a full-length comparison with the expected footer, absent == empty), that the caller's expected footer is under every authenticator, that a token built with another footer is accepted on no path, the footer segment text of format_token, PAE framing and the plumbing.",
+            "Decides the footer gate (4-segment tokens only through the equal edge of a full-length comparison with the expected footer, 3-segment tokens only when the expected footer is absent or empty), that the produced token text equals the specification's for absent / empty / present footer, that the caller's expected footer is under every authenticator, that a token built with another footer is accepted on no path, PAE framing, and the plumbing (wrappers, setters store their argument and leave the other fields alone).",
             "trusted: MAC strength; ring verify_slices_are_equal; base64 injective"),
     "C06": ("other", "4.C06", "path-sensitive abstract interpretation of the whole entry points over the MIR (rustc_private driver) with the cryptographic primitives as uninterpreted functions (canonical descriptions), compared with the specification's algorithm and composed with the sibling entry point; layer contracts of the wrappers by interpretation with the layer below summarised; structural CFG / provenance-term rules as second opinion for undecided entry points; field-read analysis; impl-header facts",
             "Decides that the assertion is the last authenticated component with the caller's value on both sides, that another assertion is accepted on no path (absent == empty), that it occurs in the token's symbolic description only inside the tag / signature, that it is carried unchanged, forwarded by all wrappers, and only settable for v3/v4.",
             "trusted: MAC strength; PAE length prefixing (checked by C08.R7)"),
     "C07": ("other", "4.C07", "path-sensitive abstract interpretation of the whole entry points over the MIR (rustc_private driver) with the cryptographic primitives as uninterpreted functions (canonical descriptions), compared with the specification's algorithm and composed with the sibling entry point; layer contracts of the wrappers by interpretation with the layer below summarised; structural CFG / provenance-term rules as second opinion for undecided entry points; gates of parse_raw_token; constant tables by abstract evaluation",
-            "Decides the header gate (both components compared on every accepting path), that each consumer checks its own version/purpose first, the marker/header string tables, and that the protocol's own header is under every authenticator.",
+            "Decides the header gate (both components compared on every accepting path), that every accepting path of each consumer found the token's header equal to the protocol's own, the marker/header string tables, that the protocol's own header is under every authenticator, and that the consumer of protocol Y accepts no payload produced by protocol X != Y (symbolic composition over the ordered pairs sharing a purpose).",
             "trusted: MAC strength; split('.') segments contain no '.'"),
     "C08": ("other", "4.C08", "path-sensitive abstract interpretation of the whole entry points over the MIR (rustc_private driver) with the cryptographic primitives as uninterpreted functions (canonical descriptions), compared with the specification's algorithm and composed with the sibling entry point; layer contracts of the wrappers by interpretation with the layer below summarised; structural CFG / provenance-term rules as second opinion for undecided entry points; abstract interpretation of format_token / PAE",
             "Decides that the symbolic token each producer computes equals the specification's algorithm transcribed in the same vocabulary (nonce derivation, key split constants, cipher, PAE, tag/signature, layout, base64url, footer segment iff non-empty), that each consumer performs the specification's check and returns its plaintext, and the composition; byte-exactness of primitives is trusted.",
@@ -38,22 +38,22 @@ CLAIMS = {
             "Decides freshness by construction; the statistical statement over histories of an OS CSPRNG is not decidable statically.",
             "trusted: ring SystemRandom is a CSPRNG"),
     "C11": ("proof", "4.C11", "CFG/term check of the registration + finite-partition abstract interpretation of the validator closure's MIR",
-            "Behaviour table of the default exp validator over an exhaustive partition of (JSON value class x time order); every class is an obligation and must get the required verdict; plus registration on every path and plumbing down to claim_validators.",
+            "Behaviour table of the default exp validator over an exhaustive partition of (JSON value class x time order); every class is an obligation and must get the required verdict; plus registration on every path, plumbing down to claim_validators, the validator table only grows, and the wrapped GenericParser cannot be reached through PasetoParser.",
             "trusted: time's RFC 3339 parser and instant ordering; serde_json accessors; models in rules/models.py"),
     "C12": ("proof", "4.C12", "CFG/term check of the registration + finite-partition abstract interpretation of the validator closure's MIR",
             "Same as C11 for nbf with the direction reversed.",
             "trusted: time's RFC 3339 parser and instant ordering; serde_json accessors; models in rules/models.py"),
     "C13": ("other", "4.C13", "provenance terms of the defaults + build contract of the 8 prelude build methods by abstract interpretation (generic builder summarised) + who-writes over functions reachable from build",
-            "Decides: defaults from one now (+1h), exp removed iff acknowledged and at build time, flags persist across builds, duplicate error first, and that building never drains / caches builder state (defaults persist across builds). Rendered values are not decided.",
+            "Decides: defaults from one now (+1h), exp removed iff acknowledged and at build time, flags persist across builds, duplicate error first, that building never drains / caches builder state (a two-claim builder's claims are the same after build_payload_from_claims on every path), and that the wrapped GenericBuilder cannot be reached through PasetoBuilder (private field, no public function - Deref included - involving both types). Rendered values are not decided.",
             "trusted: time crate rendering; HashMap semantics"),
     "C14": ("other", "4.C14", "constant tables + per-impl serialisation shape + abstract interpretation of set_claim over the JSON partition, of the payload pipeline and of wrap_claims / wrap_value on concrete small inputs (lazy iterators, concrete maps)",
             "Decides the structural conditions of claim fidelity: registered keys, one-entry serialisation, storage under the claim's key (last wins), unwrapping exactly the one-entry map, no entry dropped / added / re-keyed / transformed at build time, parser returns the parsed payload unmodified. serde_json value round trips are trusted.",
             "trusted: serde_json round trips JSON values; HashMap::insert replaces"),
     "C15": ("other", "4.C15", "behaviour table of verify_claims by abstract interpretation on a concrete parser configuration (expected {aud, exp}, validators {exp, nbf}) over the JSON partition + who-writes over functions reachable from parse",
-            "Decides, over all paths: an expected claim without validator yields Missing on null and an error on a differing value, success only when present and JSON-equal; no parser state changes through parse; the default parser registers validators for exactly exp and nbf.",
+            "Decides, over all paths: an expected claim without validator yields Missing on null and an error on a differing value, success only when present and JSON-equal; no parser state changes through parse; the default parser registers validators for exactly exp and nbf; the registration functions, interpreted from all 16 combinations of earlier entries, store the new expectation under its key and keep every other entry.",
             "trusted: serde_json Value equality / indexing; HashMap iteration"),
     "C16": ("other", "4.C16", "parse contracts (claims only on the Ok value of the authenticating call) and behaviour table of verify_claims by abstract interpretation; registration plumbing by abstract evaluation",
-            "Decides: validators are invoked only after authentication, with (key, &json[key]); an error fails the parse; on success every registered validator (with or without expected claim) ran exactly once and never twice on any path; a claim with a validator is decided by the validator alone; registration replaces; claims are constructed under their registered keys.",
+            "Decides: validators are invoked only after authentication, with (key, &json[key]); an error fails the parse; on success every registered validator (with or without expected claim) ran exactly once and never twice on any path; a claim with a validator is decided by the validator alone; registration (interpreted from all 16 combinations of earlier entries) stores the validator under its key and keeps every other validator; claims are constructed under their registered keys.",
             "trusted: HashMap iteration visits each key once"),
     "C18": ("other", "4.C18", "constant table + abstract interpretation of the reserved-key check and of all CustomClaim / time-claim constructors",
             "Decides: reserved table = the 7 registered keys; check is exact on the unmodified key and gates all three constructor forms which store the given key; time constructors accept iff iso8601::datetime accepts and keep the value verbatim. The acceptance set of iso8601 is trusted.",
